@@ -709,3 +709,340 @@ Proof.
   - rewrite Ei2 in Ej2. injection Ej2 as <-. rewrite Ei3, Ej3. split; [lia|].
     intro Hne. exfalso; apply Hne; reflexivity.
 Qed.
+
+(* ------------------------------------------------------------------------------------------- *)
+(* Completeness: every (validator, relay entry) of a round that does its work is served, unless a
+   signing request for exactly that validator and content failed. *)
+
+Definition Jx (st : state) : Prop := exists log, J st log.
+
+Definition acc_le (ac ac' : acc) : Prop :=
+  (forall a sr, mem_rm (a_relays ac) a sr -> mem_rm (a_relays ac') a sr)
+  /\ incl (a_reqs ac) (a_reqs ac').
+
+Lemma acc_le_refl : forall ac, acc_le ac ac.
+Proof. intro ac; split; [auto|apply incl_refl]. Qed.
+
+Lemma acc_le_trans : forall a b c, acc_le a b -> acc_le b c -> acc_le a c.
+Proof. intros a b c [H1 H2] [H3 H4]. split; [auto|eapply incl_tran; eauto]. Qed.
+
+Definition Done (ac : acc) (a pub : N) (rc : rcfg) : Prop :=
+  (exists sr, mem_rm (a_relays ac) (rc_addr rc) sr /\ sr_content sr = content_of pub rc)
+  \/ (exists q, In q (a_reqs ac) /\ q_ok q = false /\ q_acct q = a /\ q_content q = content_of pub rc).
+
+Lemma Done_le : forall ac ac' a pub rc, acc_le ac ac' -> Done ac a pub rc -> Done ac' a pub rc.
+Proof.
+  intros ac ac' a pub rc [H1 H2] [[sr [Hm Hc]]|[q [Hq Hrest]]].
+  - left; exists sr; split; auto.
+  - right; exists q; split; auto.
+Qed.
+
+Lemma gen_relays_done : forall rcs ac now a pub first signs,
+  Jx (a_st ac) ->
+  Jx (a_st (gen_relays ac now a pub rcs first signs))
+  /\ acc_le ac (gen_relays ac now a pub rcs first signs)
+  /\ forall rc, In rc rcs -> Done (gen_relays ac now a pub rcs first signs) a pub rc.
+Proof.
+  induction rcs as [|rc rcs IH]; intros ac now a pub first signs HJ; cbn [gen_relays].
+  - split; [exact HJ|]. split; [apply acc_le_refl|intros rc []].
+  - destruct (gen_relay (a_st ac) now a (content_of pub rc) signs) as [[[st1 signs1] orq] osr] eqn:E.
+    destruct HJ as [log HJ].
+    destruct (gen_relay_spec _ _ _ _ _ _ _ _ _ _ HJ E) as [HJ1 Hsr].
+    destruct (gen_relay_shape _ _ _ _ _ _ _ _ _ E) as [Hrq [_ [Hnone _]]].
+    set (ac1 := match osr with
+                | Some sr => {| a_st := st1;
+                                a_reqs := match orq with Some rq => a_reqs ac ++ [rq] | None => a_reqs ac end;
+                                a_relays := add_reg (a_relays ac) (rc_addr rc) sr;
+                                a_cons := if first then a_cons ac ++ [sr] else a_cons ac |}
+                | None => {| a_st := st1;
+                             a_reqs := match orq with Some rq => a_reqs ac ++ [rq] | None => a_reqs ac end;
+                             a_relays := a_relays ac; a_cons := a_cons ac |}
+                end).
+    assert (H1 : Jx (a_st ac1)) by (exists (log ++ opt_list orq); destruct osr; exact HJ1).
+    assert (H2 : acc_le ac ac1).
+    { split.
+      - intros a' x Hm. destruct osr; cbn; [apply mem_add_reg; left|]; exact Hm.
+      - intros q Hq. destruct osr, orq; cbn; auto; apply in_app_iff; left; exact Hq. }
+    assert (H3 : Done ac1 a pub rc).
+    { destruct osr as [sr|].
+      - left. exists sr. split; [cbn; apply mem_add_reg; right; auto|].
+        destruct (Hsr sr eq_refl) as [q [_ [Hq ->]]]. exact Hq.
+      - right. destruct (Hnone eq_refl) as [rq [-> Hok]]. exists rq.
+        destruct (Hrq rq eq_refl) as [Ha [Hc _]]. cbn. split; [apply in_app_iff; right; left; reflexivity|auto]. }
+    destruct (IH ac1 now a pub false signs1 H1) as [H4 [H5 H6]].
+    split; [exact H4|]. split; [eapply acc_le_trans; eauto|].
+    intros rc' [<-|Hin]; [eapply Done_le; eauto|auto].
+Qed.
+
+Lemma gen_account_done : forall ac now v,
+  Jx (a_st ac) ->
+  Jx (a_st (gen_account ac now v))
+  /\ acc_le ac (gen_account ac now v)
+  /\ forall res rc, v_res v = Some res -> In rc (rs_relays res) ->
+       Done (gen_account ac now v) (v_acct v) (v_pub v) rc.
+Proof.
+  intros ac now v HJ. unfold gen_account. destruct (v_res v) as [res|].
+  - destruct (gen_relays_done (rs_relays res) ac now (v_acct v) (v_pub v) true (v_sign v) HJ) as [H1 [H2 H3]].
+    split; [exact H1|]. split; [exact H2|]. intros res' rc Hres Hrc. injection Hres as <-. auto.
+  - split; [exact HJ|]. split; [apply acc_le_refl|]. intros res rc Hres; discriminate.
+Qed.
+
+Lemma fold_done : forall l ac now,
+  Jx (a_st ac) ->
+  Jx (a_st (fold_left (fun ac v => gen_account ac now v) l ac))
+  /\ acc_le ac (fold_left (fun ac v => gen_account ac now v) l ac)
+  /\ forall v res rc, In v l -> v_res v = Some res -> In rc (rs_relays res) ->
+       Done (fold_left (fun ac v => gen_account ac now v) l ac) (v_acct v) (v_pub v) rc.
+Proof.
+  induction l as [|v l IH]; intros ac now HJ; cbn [fold_left].
+  - split; [exact HJ|]. split; [apply acc_le_refl|]. intros v res rc [].
+  - destruct (gen_account_done ac now v HJ) as [H1 [H2 H3]].
+    destruct (IH (gen_account ac now v) now H1) as [H4 [H5 H6]].
+    split; [exact H4|]. split; [eapply acc_le_trans; eauto|].
+    intros v' res rc [<-|Hin] Hres Hrc; [eapply Done_le; eauto|eauto].
+Qed.
+
+Lemma run_Jx : forall ops, Jx (fst (run init ops)).
+Proof. intro ops. eexists. apply (run_J ops init [] J_init). Qed.
+
+Lemma round_complete : forall ops i r err reqs relays nodes,
+  nth_error ops i = Some (ORound r) ->
+  nth_error (snd (run init ops)) i = Some (OutRound err reqs relays nodes) ->
+  active r = true ->
+  err = false
+  /\ forall v res rc, In v (r_vals r) -> v_res v = Some res -> In rc (rs_relays res) ->
+       reached (kind_of (r_relays r) (rc_addr rc)) = true ->
+       (exists sr, mem_rm relays (rc_addr rc) sr
+                   /\ sr_content sr = {| ct_fee := rc_fee rc; ct_gas := rc_gas rc; ct_pub := v_pub v |})
+       \/ (exists q, In q reqs /\ q_ok q = false /\ q_acct q = v_acct v
+                     /\ q_content q = {| ct_fee := rc_fee rc; ct_gas := rc_gas rc; ct_pub := v_pub v |}).
+Proof.
+  intros ops i r err reqs relays nodes Hop Hout Hact.
+  destruct (run_nth _ _ _ _ Hout) as [o [H1 H2]]. rewrite Hop in H1. injection H1 as <-.
+  cbn [step] in H2. destruct (step_round_cases (fst (run init (firstn i ops))) r) as [[_ E]|[E _]];
+    [|rewrite Hact in E; discriminate].
+  rewrite E in H2. cbn in H2. injection H2 as -> -> -> ->. split; [reflexivity|].
+  intros v res rc Hv Hres Hrc Hreach.
+  destruct (fold_done (r_vals r) {| a_st := fst (run init (firstn i ops)); a_reqs := []; a_relays := []; a_cons := [] |}
+                      (r_now r) (run_Jx _)) as [_ [_ H]].
+  destruct (H v res rc Hv Hres Hrc) as [[sr [Hm Hc]]|Hq].
+  - left. exists sr. split; [apply mem_relay_sends; split; assumption|exact Hc].
+  - right. exact Hq.
+Qed.
+
+(* ------------------------------------------------------------------------------------------- *)
+(* Proposal preparations. *)
+
+Lemma In_preparations : forall p vals i fee,
+  In (i, fee) (preparations p vals) <-> exists v, In v vals /\ v_index v = i /\ prep_fee p v = Some fee.
+Proof.
+  induction vals as [|v vals IH]; intros i fee; cbn [preparations].
+  - split; [intros []|intros [v [[] _]]].
+  - destruct (prep_fee p v) as [f|] eqn:E.
+    + cbn [In]. rewrite IH. split.
+      * intros [H|[v' [H1 H2]]]; [injection H as <- <-; exists v; auto|exists v'; split; [right|]; auto].
+      * intros [v' [[<-|H1] [H2 H3]]]; [left; rewrite E in H3; injection H3 as <-; subst; reflexivity|].
+        right; exists v'; auto.
+    + rewrite IH. split.
+      * intros [v' [H1 H2]]; exists v'; split; [right|]; auto.
+      * intros [v' [[<-|H1] [H2 H3]]]; [rewrite E in H3; discriminate|exists v'; auto].
+Qed.
+
+Lemma prepare_spec : forall ops st i p err nodes,
+  nth_error ops i = Some (OPrepare p) ->
+  nth_error (snd (run st ops)) i = Some (OutPrepare err nodes) ->
+  p_acct_err p = false -> p_vals p <> [] ->
+  err = false
+  /\ exists l, nodes = map (fun _ => Some l) (p_nodes p)
+     /\ (forall idx fee, In (idx, fee) l <->
+           exists v, In v (p_vals p) /\ v_index v = idx
+                     /\ (if p_cfg p then option_map rs_fee (v_res v) else Some (p_fallback p)) = Some fee).
+Proof.
+  intros ops st i p err nodes Hop Hout Hae Hne.
+  destruct (run_nth _ _ _ _ Hout) as [o [H1 H2]]. rewrite Hop in H1. injection H1 as <-.
+  cbn [step snd] in H2. unfold step_prepare in H2. rewrite Hae in H2.
+  destruct (p_vals p) as [|v0 vals] eqn:Ev; [contradiction|]. injection H2 as -> ->.
+  split; [reflexivity|]. exists (preparations p (v0 :: vals)). split; [reflexivity|].
+  intros idx fee. apply In_preparations.
+Qed.
+
+(* ------------------------------------------------------------------------------------------- *)
+(* Forwarding. *)
+
+Lemma mem_fold_add : forall l sr m a x,
+  mem_rm (fold_left (fun m a => add_reg m a sr) l m) a x <-> mem_rm m a x \/ (In a l /\ x = sr).
+Proof.
+  induction l as [|a0 l IH]; intros sr m a x; cbn [fold_left].
+  - split; [auto|intros [H|[[] _]]; exact H].
+  - rewrite IH, mem_add_reg. cbn [In]. split.
+    + intros [[H|[-> ->]]|[H1 H2]]; auto.
+    + intros [H|[[<-|H1] H2]]; auto.
+Qed.
+
+Definition targets (st : state) (f : forward_in) (sr : sreg) : list N :=
+  let pub := ct_pub (sr_content sr) in
+  if memb N.eqb pub (controlled st) then []
+  else match (if f_cfg f then lookup_resolve (f_resolve f) pub else Some []) with
+       | Some l => l
+       | None => []
+       end.
+
+Lemma mem_forward_fold : forall st f inc m a x,
+  mem_rm (fold_left (forward_one st f) inc m) a x
+  <-> mem_rm m a x \/ (In x inc /\ In a (targets st f x)).
+Proof.
+  induction inc as [|sr inc IH]; intros m a x; cbn [fold_left].
+  - split; [auto|intros [H|[[] _]]; exact H].
+  - rewrite IH. cbn [In].
+    assert (Hone : mem_rm (forward_one st f m sr) a x <-> mem_rm m a x \/ (x = sr /\ In a (targets st f sr))).
+    { unfold forward_one, targets.
+      destruct (memb N.eqb (ct_pub (sr_content sr)) (controlled st)); [cbn; tauto|].
+      destruct (if f_cfg f then lookup_resolve (f_resolve f) (ct_pub (sr_content sr)) else Some []) as [l|];
+        [|cbn; tauto].
+      rewrite mem_fold_add. tauto. }
+    rewrite Hone. split.
+    + intros [[H|[-> H]]|[H1 H2]]; auto.
+    + intros [H|[[<-|H1] H2]]; auto.
+Qed.
+
+Lemma forward_spec : forall st f a sr,
+  (exists relays, step_forward st f = OutForward relays /\ mem_rm relays a sr)
+  <-> (In sr (f_incoming f) /\ In a (targets st f sr) /\ reached (kind_of (f_relays f) a) = true).
+Proof.
+  intros st f a sr. unfold step_forward. split.
+  - intros [relays [H Hm]]. injection H as <-. apply mem_relay_sends in Hm as [Hm Hr].
+    apply mem_forward_fold in Hm as [[l [[] _]]|[H1 H2]]. auto.
+  - intros [H1 [H2 H3]]. eexists; split; [reflexivity|]. apply mem_relay_sends. split; [|exact H3].
+    apply mem_forward_fold. right; auto.
+Qed.
+
+(* the controlled set is the set of public keys of the last round that did its work *)
+Fixpoint ctrl_spec (c : list N) (ops : list op) : list N :=
+  match ops with
+  | [] => c
+  | ORound r :: ops' => ctrl_spec (if active r then map v_pub (r_vals r) else c) ops'
+  | _ :: ops' => ctrl_spec c ops'
+  end.
+
+Lemma controlled_step_round : forall st r,
+  controlled (fst (step_round st r)) = if active r then map v_pub (r_vals r) else controlled st.
+Proof.
+  intros st r. destruct (step_round_cases st r) as [[-> ->]|[-> ->]]; reflexivity.
+Qed.
+
+Lemma controlled_run : forall ops st, controlled (fst (run st ops)) = ctrl_spec (controlled st) ops.
+Proof.
+  induction ops as [|o ops IH]; intros st; [reflexivity|].
+  rewrite fst_run_cons, IH. destruct o as [r|f|p]; cbn [step fst ctrl_spec]; [|reflexivity|reflexivity].
+  rewrite controlled_step_round. reflexivity.
+Qed.
+
+Lemma forward_history : forall ops i f relays,
+  nth_error ops i = Some (OForward f) ->
+  nth_error (snd (run init ops)) i = Some (OutForward relays) ->
+  forall a sr,
+    mem_rm relays a sr <->
+    (In sr (f_incoming f)
+     /\ memb N.eqb (ct_pub (sr_content sr)) (ctrl_spec [] (firstn i ops)) = false
+     /\ f_cfg f = true
+     /\ (exists addrs, lookup_resolve (f_resolve f) (ct_pub (sr_content sr)) = Some addrs /\ In a addrs)
+     /\ reached (kind_of (f_relays f) a) = true).
+Proof.
+  intros ops i f relays Hop Hout a sr.
+  destruct (run_nth _ _ _ _ Hout) as [o [H1 H2]]. rewrite Hop in H1. injection H1 as <-.
+  cbn [step snd] in H2.
+  assert (Hc : controlled (fst (run init (firstn i ops))) = ctrl_spec [] (firstn i ops)) by apply controlled_run.
+  split.
+  - intro Hm.
+    destruct (proj1 (forward_spec (fst (run init (firstn i ops))) f a sr)) as [Hin [Ht Hr]];
+      [exists relays; split; [symmetry; exact H2|exact Hm]|].
+    unfold targets in Ht. rewrite Hc in Ht.
+    destruct (memb N.eqb (ct_pub (sr_content sr)) (ctrl_spec [] (firstn i ops))); [destruct Ht|].
+    destruct (f_cfg f); [|destruct Ht].
+    destruct (lookup_resolve (f_resolve f) (ct_pub (sr_content sr))) as [l|] eqn:El; [|destruct Ht].
+    repeat split; auto. exists l; auto.
+  - intros [Hin [Hctrl [Hcfg [[addrs [Hl Ha]] Hr]]]].
+    destruct (proj2 (forward_spec (fst (run init (firstn i ops))) f a sr)) as [relays' [E Hm]].
+    + split; [exact Hin|]. split; [|exact Hr]. unfold targets. rewrite Hc, Hctrl, Hcfg, Hl. exact Ha.
+    + rewrite E in H2. injection H2 as ->. exact Hm.
+Qed.
+
+(* ------------------------------------------------------------------------------------------- *)
+(* Failures of relays and beacon nodes are isolated. *)
+
+Definition set_relays (r : round_in) (ks : list (N * rkind)) : round_in :=
+  {| r_now := r_now r; r_cfg := r_cfg r; r_api := r_api r; r_acct_err := r_acct_err r;
+     r_vals := r_vals r; r_relays := ks; r_nodes := r_nodes r |}.
+
+Definition set_nodes (r : round_in) (ns : list bool) : round_in :=
+  {| r_now := r_now r; r_cfg := r_cfg r; r_api := r_api r; r_acct_err := r_acct_err r;
+     r_vals := r_vals r; r_relays := r_relays r; r_nodes := ns |}.
+
+Definition set_pnodes (p : prepare_in) (ns : list pkind) : prepare_in :=
+  {| p_cfg := p_cfg p; p_fallback := p_fallback p; p_acct_err := p_acct_err p; p_vals := p_vals p; p_nodes := ns |}.
+
+(* the entry of relay a in what is sent *)
+Definition entry_of (m : relaymap) (a : N) : relaymap := filter (fun e => fst e =? a) m.
+
+Lemma entry_relay_sends : forall ks m a,
+  entry_of (relay_sends ks m) a = if reached (kind_of ks a) then entry_of (sort_by fst m) a else [].
+Proof.
+  intros ks m a. unfold relay_sends, entry_of. induction (sort_by fst m) as [|e l IH]; cbn [filter].
+  - destruct (reached (kind_of ks a)); reflexivity.
+  - destruct (N.eqb (fst e) a) eqn:Ea.
+    + apply N.eqb_eq in Ea. rewrite Ea. destruct (reached (kind_of ks a)) eqn:Er.
+      * cbn [filter]. rewrite Ea, N.eqb_refl, IH. reflexivity.
+      * exact IH.
+    + destruct (reached (kind_of ks (fst e))); cbn [filter]; rewrite ?Ea; exact IH.
+Qed.
+
+Lemma relay_failures_isolated : forall st r ks',
+  fst (step_round st (set_relays r ks')) = fst (step_round st r)
+  /\ exists err reqs relays relays' nodes,
+       snd (step_round st r) = OutRound err reqs relays nodes
+       /\ snd (step_round st (set_relays r ks')) = OutRound err reqs relays' nodes
+       /\ forall a, kind_of ks' a = kind_of (r_relays r) a -> entry_of relays' a = entry_of relays a.
+Proof.
+  intros st r ks'.
+  destruct (step_round_cases st r) as [[Ha E]|[Ha E]];
+    destruct (step_round_cases st (set_relays r ks')) as [[Ha' E']|[Ha' E']];
+    try (change (active (set_relays r ks')) with (active r) in Ha'; rewrite Ha in Ha'; discriminate);
+    rewrite E, E'.
+  - split; [reflexivity|]. cbn. do 5 eexists. split; [reflexivity|]. split; [reflexivity|].
+    intros a Hk. rewrite !entry_relay_sends, Hk. reflexivity.
+  - split; [reflexivity|]. cbn. do 5 eexists. split; [reflexivity|]. split; [reflexivity|]. reflexivity.
+Qed.
+
+Lemma map_const_length {A B C} : forall (c : C) (l : list A) (l' : list B),
+  length l = length l' -> map (fun _ => c) l = map (fun _ => c) l'.
+Proof.
+  induction l as [|x l IH]; intros [|y l'] H; try discriminate; [reflexivity|].
+  cbn. f_equal. apply IH. injection H; auto.
+Qed.
+
+Lemma node_failures_isolated : forall st r ns',
+  length ns' = length (r_nodes r) -> step_round st (set_nodes r ns') = step_round st r.
+Proof.
+  intros st r ns' Hlen.
+  destruct (step_round_cases st r) as [[Ha E]|[Ha E]];
+    destruct (step_round_cases st (set_nodes r ns')) as [[Ha' E']|[Ha' E']];
+    try (change (active (set_nodes r ns')) with (active r) in Ha'; rewrite Ha in Ha'; discriminate);
+    rewrite E, E'.
+  - unfold do_round, node_sends; cbn. f_equal. f_equal. apply map_const_length. exact Hlen.
+  - unfold no_round; cbn. f_equal. f_equal. apply map_const_length. exact Hlen.
+Qed.
+
+Lemma preparations_set_pnodes : forall p ns' vals, preparations (set_pnodes p ns') vals = preparations p vals.
+Proof.
+  induction vals as [|v vals IH]; [reflexivity|]. cbn [preparations].
+  change (prep_fee (set_pnodes p ns') v) with (prep_fee p v). rewrite IH. reflexivity.
+Qed.
+
+Lemma prep_node_failures_isolated : forall p ns',
+  length ns' = length (p_nodes p) -> step_prepare (set_pnodes p ns') = step_prepare p.
+Proof.
+  intros p ns' Hlen. unfold step_prepare; cbn.
+  destruct (p_acct_err p); [f_equal; apply map_const_length; exact Hlen|].
+  destruct (p_vals p) as [|v vals]; [f_equal; apply map_const_length; exact Hlen|].
+  rewrite preparations_set_pnodes. f_equal. apply map_const_length; exact Hlen.
+Qed.
